@@ -178,6 +178,15 @@ MUTANTS = [
     m('C17', 'early_stop_loose', (RG, "        return self.primal_feasibility(mu) <= self.convergence", "        return self.primal_feasibility(mu) <= max(self.convergence, 1e-3)")),
     m('C17', 'revert_F12_duplicate_regions', (RG, "                if len(z) > 0 and not any(set(z) == set(r) for r in regions):", "                if len(z) > 0 and not z in regions:")),
     m('C16', 'revert_F12_duplicate_regions', (RG, "                if len(z) > 0 and not any(set(z) == set(r) for r in regions):", "                if len(z) > 0 and not z in regions:")),
+    # ---- C18 ------------------------------------------------------------
+    m('C18', 'revert_F7_damping_attr', (LI, "                    if hasattr(model, 'damping'): # only region graphs are damped\n                        model.damping = (0.9 + model.damping) / 2.0\n                        if self.log: print('Increasing damping and continuing', model.damping)", "                    model.damping = (0.9 + model.damping) / 2.0\n                    if self.log: print('Increasing damping and continuing', model.damping)")),
+    m('C18', 'restart_same_alpha', (LI, "                    return self.mirror_descent_auto(alpha/2, iters, callback)", "                    return self.mirror_descent_auto(alpha, iters, callback)")),
+    m('C18', 'grouping_no_break', (LI, "                if set(proj) <= set(cl):\n                    self.groups[cl].append(m)\n                    break", "                if set(proj) <= set(cl):\n                    self.groups[cl].append(m)")),
+    m('C18', 'feasibility_loop_skipped', (LI, "        for _ in range(1000):\n            if model.primal_feasibility(mu) < 1.0:", "        for _ in range(0):\n            if model.primal_feasibility(mu) < 1.0:")),
+    m('C18', 'uptick_continues_without_halving', (LI, "                    alpha *= 0.5\n            prev_l = l", "            prev_l = l")),
+    m('C18', 'gradient_step_ascent', (LI, "            theta = theta - alpha*dL\n", "            theta = theta + alpha*dL\n")),
+    m('C18', 'rg_project_unnormalised_average', (FG, "            if terminate: return ans * (self.total / ans.sum())", "            if terminate: return ans")),
+    m('C18', 'local_total_floor_dropped', (LI, "                total = max(1, estimate)", "                total = estimate")),
 ]
 
 
